@@ -59,6 +59,10 @@ def run_variant(case, name, seed):
         # scenario over a different geographic reference (same node ids, timer names, targets), or another one
         c["drive"] = {"mode": "steps", "n": 0, "untilDone": True}
         c["shadow"] = {"mode": name.split("-")[1], "lead": 1, "refGeo": [fbits(1.0), fbits(2.0), c["cfg"]["refGeo"][2]]}
+    elif name == "status-polled":
+        # observing the run through the public status query (before the first step, from hooks, while
+        # requests are made) - the baseline is never polled
+        c["pollDone"] = True
     elif name == "rerun":
         pass
     try:
@@ -174,7 +178,8 @@ class C06(SimCheck):
     thorough_n = 240
     force_cfg = {"hasComm": True, "hasTimer": True}
     drive = {"mode": "start"}
-    variants = ["rerun", "logging", "profile", "logfile", "realtime", "stepped", "beside-twin", "beside-other"]
+    variants = ["rerun", "logging", "profile", "logfile", "realtime", "stepped", "beside-twin", "beside-other",
+                "status-polled"]
     profile = {"w": {"setTimer": 5, "cancelTimer": 2, "send": 3, "broadcast": 2, "goto": 1, "setSpeed": 0.5,
                      "setRange": 0.5, "gotoGeo": 1}}
 
@@ -182,6 +187,7 @@ class C06(SimCheck):
         cfg = scn["cfg"]
         scn.pop("shadow", None)          # the baseline runs alone; the beside-* variants add the other simulation
         scn.pop("between", None)
+        scn.pop("pollDone", None)        # the baseline is not observed; the status-polled variant is
         if r.random() < 0.2:
             # a protocol that lets its k-th refused request (unknown destination, timer in the past) escape
             scn["escapeAt"] = r.choice([1, 1, 2, 3])
